@@ -449,6 +449,9 @@ pub struct Dgram {
 
 #[derive(Clone, Debug)]
 pub struct XEvent {
+    /// Length of the tap when the event was emitted: a transport verdict on a received datagram
+    /// has `tap_pos == index of its Consume event + 1`
+    pub tap_pos: usize,
     pub time: u64,
     pub node: usize,
     pub incarnation: u32,
@@ -538,10 +541,12 @@ pub fn drive(seed: u64, cfg: MrpCfg) -> MrpRun {
     {
         let events = events.clone();
         let incs = incs.clone();
+        let net = net.clone();
         rs_matter::verif::set_sink(Some(Box::new(move |ev| {
             let node = kernel::cur_node().unwrap_or(usize::MAX);
             let incarnation = incs.borrow().get(node).copied().unwrap_or(0);
             events.borrow_mut().push(XEvent {
+                tap_pos: net.tap_len(),
                 time: kernel::now(),
                 node,
                 incarnation,
@@ -649,8 +654,32 @@ pub fn drive(seed: u64, cfg: MrpCfg) -> MrpRun {
             .sum();
         // RX timeouts of exchanges waiting for a peer which gave up: ladder + 30 s processing allowance
         exec.cfg.max_time = u64::MAX / 2;
-        stop = exec.run_for((2 * ladder + 35_000) * MS);
-        if !matches!(stop, StopReason::MaxPolls) {
+        // Wait for every application task to finish (receive timeouts can take minutes of
+        // simulated time), then for the longest ladder + accept timeout
+        let cap = kernel::now() + 900 * SEC;
+        let mut apps_done = false;
+        'settle: loop {
+            loop {
+                stop = exec.run_for(500 * MS);
+                if matches!(stop, StopReason::MaxPolls) || kernel::now() >= cap {
+                    break 'settle;
+                }
+                if active.get() == 0 && busy.get() == 0 {
+                    break;
+                }
+            }
+            // Everything idle: now the longest ladder / held datagram may run out. If that wakes an
+            // application again (late datagram opening a new exchange), start over.
+            stop = exec.run_for((ladder + 9_000) * MS);
+            if matches!(stop, StopReason::MaxPolls) {
+                break;
+            }
+            if active.get() == 0 && busy.get() == 0 {
+                apps_done = true;
+                break;
+            }
+        }
+        if apps_done && !matches!(stop, StopReason::MaxPolls) {
             let w0 = kernel::now();
             stop = exec.run_for(5 * SEC);
             for node in 0..n_nodes {
